@@ -16,6 +16,7 @@ from spec import state as ST
 from spec.rt import bits, bit
 from . import machine as MC
 from . import c13
+from .common import own_frame, ALSO_MEM
 
 ASSUMPTIONS = [
     'scope: stage 1 only - no Virtualization Extensions (no stage 2), not Hyp mode, TTBCR.EAE == 0 (Short-descriptor format) or MMU off; '
@@ -75,6 +76,7 @@ def unit():
         except PyRaise as e:
             exc = e.exc
         final = mach.read()
+        own_frame(eng, 'translate_address_v')
         def rd(pa):
             v = c13.hub_read(hub.init, pa, 4)
             spec_reads.append((pa, v))            # the specification's own descriptor fetches (for faithful replays)
@@ -180,7 +182,7 @@ def unit():
         return bad, '\n'.join(lines)
 
     return Unit(uid, ['C15'], symbolic, replay, {'contracts': {}, 'max_paths': 50000, 'merge_calls': {A.encode_sdfsr, A.convert_attrs_hints}},
-                meta={'function': '%s.ArmV6.translate_address_v' % A.__module__})
+                meta={'function': '%s.ArmV6.translate_address_v' % A.__module__, 'also': ALSO_MEM})
 
 
 def unit_ld():
@@ -236,6 +238,7 @@ def unit_ld():
             eng.oblige('term', 'the table walk finishes within three levels (lookup loop terminates)', False, detail=str(e))
             return
         final = mach.read()
+        own_frame(eng, 'translate_address_v')
         def rd8(pa):
             v = c13.hub_read(hub.init, pa, 8)
             spec_reads.append((pa, v))
@@ -323,7 +326,7 @@ def unit_ld():
         return bad, '\n'.join(lines)
 
     return Unit(uid, ['C15'], symbolic, replay, {'contracts': {}, 'max_paths': 50000, 'merge_calls': {A.encode_ldfsr, A.convert_attrs_hints}, 'loop_bound': 8},
-                meta={'function': '%s.ArmV6.translate_address_v' % A.__module__})
+                meta={'function': '%s.ArmV6.translate_address_v' % A.__module__, 'also': ALSO_MEM})
 
 
 def units(tier):
